@@ -299,6 +299,21 @@ def judge_views(rec, rnd, nedits, ncorr):
     rec.count('section_count_checks')
     if [s[0] for s in base['sections']] != [b[0][1:-1].strip() for b in blocks]:
         rec.violation('views-sections-not-one-to-one', f'{[b[0] for b in blocks]} -> {[s[0] for s in base["sections"]]}', case0)
+    else:
+        # every view carries exactly the properties ITS section states (filter, description, its own local variables in order) - nothing of its neighbours
+        for got, b in zip(base['sections'], blocks):
+            flt = [l.split(':', 1)[1].strip() for l in b[1:] if l.startswith('filter:')][0]
+            dsc = ([l.split(':', 1)[1].strip() for l in b[1:] if l.startswith('description:')] or [None])[0]
+            loc = tuple(tuple(x.strip() for x in l.split('=', 1)) for l in b[1:] if not l.startswith(('filter:', 'description:')))
+            rec.count('view_properties_vs_file_checks')
+            got_dsc = got[3] if got[3] else None
+            if got[1] != flt or tuple(got[2]) != loc or (got_dsc or None) != (dsc or None):
+                rec.violation('view-properties-differ-from-file', f'section {b[0]}: parsed filter={got[1]!r} variables={got[2]} description={got[3]!r}; the file states '
+                              f'filter={flt!r} variables={loc} description={dsc!r}', case0)
+                break
+        want_gl = [tuple(x.strip() for x in l.split('=', 1)) for l in pre]
+        if [tuple(g) for g in base['globals']] != want_gl:
+            rec.violation('view-globals-differ-from-file', f'{base["globals"]} vs {want_gl}', case0)
     for _ in range(nedits):
         p2, b2, sep, desc = edit(pre, blocks, rnd, False)
         t2 = assemble(p2, b2, sep)
